@@ -94,7 +94,7 @@ Qed.
 
 (* ---- the SR constructors: total refusal verdict ------------------------------------ *)
 Definition verif_missing (a : sr_args) : bool :=
-  a_verified a && (negb (is_some (a_observer a)) || negb (is_some (a_org a))).
+  a_verified a && (negb (given (a_observer a)) || negb (given (a_org a))).
 
 (* guard order of _SR.__init__ as a decision list *)
 Definition sr_base_spec (cls : Z) (a : sr_args) : res doc :=
@@ -119,8 +119,8 @@ Proof.
   destruct (a_evidence a) as [|e0 ev]; [reflexivity|].
   destruct (a_ts_ok a); cbn [negb]; [|reflexivity].
   destruct (a_verified a); cbn [andb].
-  - destruct (a_observer a) as [n|]; cbn [is_some negb orb]; [|reflexivity].
-    destruct (a_org a) as [o|]; cbn [is_some negb orb]; [|reflexivity].
+  - destruct (given (a_observer a)); cbn [negb orb]; [|reflexivity].
+    destruct (given (a_org a)); cbn [negb orb]; [|reflexivity].
     destruct (a_content a) as [it|[|it [|it2 l]]]; reflexivity.
   - destruct (a_content a) as [it|[|it [|it2 l]]]; reflexivity.
 Qed.
@@ -288,7 +288,7 @@ Proof.
     cbn [built_doc d_content] in Hd. specialize (H3 Hc).
     assert (has_scoord3d root = true) by (apply has_scoord3d_iff; eauto). congruence. }
   intros Hv. destruct (verified_recorded _ _ _ H) as [_ [_ [_ [V _]]]].
-  destruct (V Hv) as [n [o [E1 [E2 E3]]]]. exists n, o. repeat split; try assumption.
+  destruct (V Hv) as [n [o [E1 [E2 [E3 _]]]]]. exists n, o. repeat split; try assumption.
 Qed.
 
 (* non-vacuity of the end-to-end statement: a depth-3 tree with a repeated reference, evidence
@@ -557,7 +557,7 @@ Proof.
        a_record a_extras].
   destruct (a_evidence a) as [|e0 ev]; [reflexivity|].
   destruct (a_ts_ok a); cbn [negb]; [|reflexivity].
-  destruct (a_verified a && (negb (is_some (a_observer a)) || negb (is_some (a_org a)))); [reflexivity|].
+  destruct (a_verified a && (negb (given (a_observer a)) || negb (given (a_org a)))); [reflexivity|].
   destruct (single_root (a_content a)) as [root|]; [|reflexivity].
   destruct (negb (i_rel root =? 0)); [reflexivity|].
   destruct (negb (vt_eqb (i_vt root) CONTAINER)); [reflexivity|].
@@ -595,17 +595,31 @@ Qed.
 
 (* the verification clause, whatever else is supplied *)
 Lemma verification_whatever_else : forall c a x,
-  (a_verified a = true -> (a_observer a = None \/ a_org a = None) ->
+  (a_verified a = true ->
+     (a_observer a = None \/ a_observer a = Some 0 \/ a_org a = None \/ a_org a = Some 0) ->
      sr_init c (set_extras a x) = Err "ValueError") /\
   (forall d, sr_init c (set_extras a x) = Ok d ->
      d_verified d = a_verified a /\
      (a_verified a = true ->
-        exists n o, a_observer a = Some n /\ a_org a = Some o /\ d_observer d = Some (n, o)) /\
+        exists n o, a_observer a = Some n /\ a_org a = Some o /\ d_observer d = Some (n, o) /\
+                    n <> 0 /\ o <> 0) /\
      (a_verified a = false -> d_observer d = None)).
 Proof.
   intros c a x. split.
-  - intros Hv Hn. apply verified_needs_details; assumption.
+  - intros Hv Hn. apply verified_needs_details; [assumption|].
+    cbn [set_extras a_observer a_org]. rewrite !given_false_iff. tauto.
   - intros d H. destruct (verified_recorded _ _ _ H) as [V1 [_ [_ [V2 V3]]]]. auto.
+Qed.
+
+(* the verification guard as an equivalence: with evidence and a supported transfer syntax, the
+   constructor of every class refuses BECAUSE OF the verification details exactly when the
+   document is marked verified and a detail is absent or empty *)
+Lemma verif_missing_iff : forall a,
+  verif_missing a = true <->
+  a_verified a = true /\
+  (a_observer a = None \/ a_observer a = Some 0 \/ a_org a = None \/ a_org a = Some 0).
+Proof.
+  intros a. unfold verif_missing. rewrite andb_true_iff, orb_true_iff, !negb_true_iff, !given_false_iff. tauto.
 Qed.
 
 (* the scenario of a verified document without organization but with an institution name:
@@ -618,6 +632,8 @@ Lemma verification_example :
   sr_init Comprehensive3D (ver_args None (Extras (Some 3) (Some 4) None None)) = Err "ValueError" /\
   sr_init Comprehensive (ver_args None (Extras (Some 3) None None None)) = Err "ValueError" /\
   sr_init Enhanced (ver_args None (Extras (Some 3) None None (Some [9]))) = Err "ValueError" /\
+  sr_init Comprehensive3D (ver_args (Some 0) (Extras (Some 3) None None None)) = Err "ValueError" /\
+  sr_init Enhanced (ver_args (Some 0) no_extras) = Err "ValueError" /\
   exists d, sr_init Comprehensive3D (ver_args (Some 8) (Extras (Some 3) (Some 4) None (Some [9]))) = Ok d /\
     d_observer d = Some (7, 8) /\ d_extras d = Recorded (Some 3) (Some 4) (Some []) (Some [9]).
 Proof. repeat split. eexists. split; [vm_compute; reflexivity|]. split; reflexivity. Qed.
